@@ -65,6 +65,7 @@ OkRead(c, mt) == [NoRes EXCEPT !.kind = "read", !.d = c, !.mt = mt]
 OkRange(c, mt, slice) == [NoRes EXCEPT !.kind = "range", !.d = c, !.mt = mt, !.slice = slice]
 OkItems(s) == [NoRes EXCEPT !.kind = "items", !.items = s]
 OkN(n) == [NoRes EXCEPT !.kind = "n", !.n = n]
+OkDescN(c, n) == [NoRes EXCEPT !.kind = "descn", !.d = c, !.n = n]   \* descriptor with an explicitly given size
 ErrR(code) == [NoRes EXCEPT !.ok = FALSE, !.code = code]
 \* "FAIL" = must fail, class not fixed by the contract.
 
